@@ -36,6 +36,11 @@ def main(argv=None):
         an = Analyzer(prog)
         ctx = Ctx(prop, prog, an, args.tier, seed)
         ctx.stats['wrappers_absorbed_by_the_loader'] = list(prog.absorbed)
+        ctx.stats['suppress_blocks_desugared_by_the_loader'] = prog.suppress_desugared
+        ctx.stats['self_aliases_resolved_by_the_loader'] = prog.aliases_resolved
+        ctx.stats['numeric_updates_normalised_by_the_loader'] = prog.updates_normalised
+        ctx.stats['constant_first_comparisons_normalised_by_the_loader'] = prog.comparisons_normalised
+        ctx.stats['else_blocks_hoisted_after_a_leaving_branch_by_the_loader'] = prog.else_hoisted
         mod.run(ctx)
         if args.tier == 'thorough':
             if hasattr(mod, 'run_thorough'):
